@@ -145,6 +145,13 @@ func main() {
 	tmpRoot := os.Getenv("TMPDIR")
 	if tmpRoot == "" {
 		tmpRoot = "/tmp"
+		if st, err := os.Stat("/dev/shm"); err == nil && st.IsDir() {
+			if f, err := os.CreateTemp("/dev/shm", "verif-probe-"); err == nil {
+				f.Close()
+				os.Remove(f.Name())
+				tmpRoot = "/dev/shm" // tmpfs: the per-execution input files never touch the disk
+			}
+		}
 	}
 	bdir, err := os.MkdirTemp(tmpRoot, "verif-"+id+"-")
 	if err != nil {
